@@ -3,7 +3,9 @@
    Abstraction: a data set is a number d >= 1; the edge knots / category set derived from data set d are "Some d"
    (custom edge_knots passed to the constructor are source 0 and the object remembers that they were given).  What a model predicts is determined by its fit record
    (which data, which knots each term had when the coefficients were estimated) together with the CURRENT knots of its
-   term objects (build_columns reads term.edge_knots_ at prediction time). *)
+   term objects (build_columns reads term.edge_knots_ at prediction time).
+   The machine never looks at the model class (distribution, link, expectile, exposure): every definition and theorem holds for
+   LinearGAM, LogisticGAM, PoissonGAM, GammaGAM, InvGaussGAM and ExpectileGAM alike; the harness runs histories of all six. *)
 From Coq Require Import List ZArith Bool Arith.
 Import ListNotations.
 
@@ -45,6 +47,8 @@ Inductive op :=
 | Fit (m d : nat)
 | Predict (m : nat) | Intervals (m : nat) | PartialDependence (m : nat) | Summary (m : nat) | Sample (m : nat)
 | Loglik (m : nat) | Residuals (m : nat)
+| PredictProba (m : nat) | Accuracy (m : nat) | Score (m : nat)   (* class-specific queries (LogisticGAM.predict_proba / accuracy, score) *)
+| FitQuantile (m d : nat)                     (* ExpectileGAM.fit_quantile: a sequence of fits on the same data *)
 | GridsearchNoKeep (m d : nat)
 | GridsearchKeep (m d : nat) (self_best : bool) (* self_best: the already fitted self had the best score *)
 | DeepCopy (m : nat)
@@ -68,8 +72,9 @@ Definition step (o : op) (h : heap) : heap :=
   match o with
   | NewTerm k custom => mkH (h_terms h ++ [mkT k (if custom then Some 0 else None) custom]) (h_models h)
   | NewModel ids => mkH (h_terms h) (h_models h ++ [mkM ids None 0])
-  | Fit m d => fit_model h m d
-  | Predict _ | Intervals _ | PartialDependence _ | Summary _ | Sample _ | Loglik _ | Residuals _ | SetParams _ => h
+  | Fit m d | FitQuantile m d => fit_model h m d
+  | Predict _ | Intervals _ | PartialDependence _ | Summary _ | Sample _ | Loglik _ | Residuals _ | SetParams _
+  | PredictProba _ | Accuracy _ | Score _ => h
   | GridsearchNoKeep m d =>
       if is_fitted h m then h
       else mkH (compile_ids d (m_terms (get_m h m)) (h_terms h)) (h_models h)      (* _validate_data_dep_params on self *)
@@ -100,7 +105,8 @@ Definition fresh_fit (h : heap) (d : nat) (ids : list nat) : option (nat * list 
 
 Definition is_query (h : heap) (o : op) : bool :=
   match o with
-  | Predict _ | Intervals _ | PartialDependence _ | Summary _ | Sample _ | Loglik _ | Residuals _ => true
+  | Predict _ | Intervals _ | PartialDependence _ | Summary _ | Sample _ | Loglik _ | Residuals _
+  | PredictProba _ | Accuracy _ | Score _ => true
   | GridsearchNoKeep m _ => is_fitted h m
   | _ => false
   end.
